@@ -283,12 +283,21 @@ func cmdWorker(args []string) int {
 	w := workerOut{Kinds: map[string]int{}, Counters: map[string]int{}, Faults: map[string]int{}, KnownHits: map[string]int{}}
 	keys := map[uint64]bool{}
 	seenSig := map[string]bool{}
+	enumN := 0
+	en, _ := p.(props.Enumerator)
+	if en != nil {
+		enumN = en.EnumSize(tier)
+	}
 	for i := *offset; i < *runs; i += *step {
-		if *deadline > 0 && i%16 == *offset%16 && time.Now().Unix() >= *deadline {
+		if *deadline > 0 && i >= enumN && time.Now().Unix() >= *deadline {
 			break
 		}
-		rs := tape.Mix(*seed, *prop, i)
-		t := tape.NewRecording(rs)
+		var t *tape.Tape
+		if i < enumN {
+			t = tape.NewReplay(en.TapeFor(i, tier))
+		} else {
+			t = tape.NewRecording(tape.Mix(*seed, *prop, i))
+		}
 		res, trouble := runOne(p, t, tier)
 		if trouble != "" {
 			w.Trouble = fmt.Sprintf("run %d (seed %d): %s", i, *seed, trouble)
@@ -329,7 +338,7 @@ func cmdWorker(args []string) int {
 				continue
 			}
 			sig := v.Sig()
-			if seenSig[sig] || len(w.Violations) >= 6 {
+			if seenSig[sig] || len(w.Violations) >= 40 {
 				continue
 			}
 			seenSig[sig] = true
@@ -507,6 +516,11 @@ func cmdRun(args []string) int {
 		fmt.Fprintln(os.Stderr, "known findings:", err)
 		return 2
 	}
+	enumN := 0
+	if en, ok := p.(props.Enumerator); ok {
+		enumN = en.EnumSize(parseTier(*tierS))
+		*runs += enumN
+	}
 	tmp, err := os.MkdirTemp("", "errsim-run-")
 	if err != nil {
 		fmt.Fprintln(os.Stderr, err)
@@ -670,6 +684,8 @@ func cmdRun(args []string) int {
 				"raw_violations_seen":   total.RawViol,
 				"known_findings_hit":    knownLines,
 				"workers":               *workers,
+				"enumerated_cases":      enumN,
+				"exhaustive":            false,
 				"components": map[string]string{
 					"real": "cockroachdb/errors (all packages, built from /repo working tree with -tags verif), gogo/protobuf marshal/unmarshal, cockroachdb/redact, logtags, sentry-go event construction, pkg/errors, grpc status types",
 					"stub": "process boundary (registry set swapped by hook H1), network (in-memory priority queue carrying real protobuf bytes), logical clock, warning log (counter)",
